@@ -715,9 +715,9 @@ fn execute(inet: Arc<Internet>, limits: (u8, u8), case_rand: bool, filters: [usi
                     "edns_payload_len": opts.edns_payload_len,
                 });
                 let cfg: hickory_resolver::recursor::RecursiveConfig = serde_json::from_value(cfg).expect("RecursiveConfig");
-                let r = Recursor::from_config(cfg, Some(&dir), net.clone()).expect("recursor from config");
+                let r = Recursor::from_config(cfg, Some(&dir), net.clone());
                 let _ = std::fs::remove_dir_all(&dir);
-                r
+                r.expect("recursor from config")
             }
         };
 
